@@ -41,6 +41,19 @@ Definition verify_proof_top {B} (check : B -> res unit) (i : vp_input B) : res u
   | Some b => check b
   end.
 
+(* Step 1 on the credential's WHOLE proof list: the loop `for _, p := range vc.Proof` stops at
+   the FIRST proof whose type is the requested one; that proof - and no other - supplies the core
+   claim for the binding check and is the one handed to the verifier.  An entry of the list is
+   (its type is the requested one?, what steps 2-4 find for it). *)
+Definition select_proof {B} (ps : list (bool * vp_input B)) : vp_input B :=
+  match find (fun p => fst p) ps with
+  | Some (_, i) => mkvp true (vp_claim i) (vp_binding i) (vp_typed i)
+  | None => mkvp false true true None
+  end.
+
+Definition verify_proof_list {B} (check : B -> res unit) (ps : list (bool * vp_input B)) : res unit :=
+  verify_proof_top check (select_proof ps).
+
 (* issuerData.credentialStatus is declared `interface{}`: when the proof is decoded, an
    object {"id":..,"type":ty,"revocationNonce":n} with an integer literal n becomes a jsonObj
    whose number is a float64; coerceCredentialStatus re-encodes it and decodes the result into
